@@ -10,6 +10,7 @@ The harness only knows how to call the two functions and how to fit a scalar.
 from __future__ import annotations
 
 import itertools
+import json
 import math
 import random
 from collections import OrderedDict
@@ -376,10 +377,33 @@ def configs(rng: random.Random, size: str) -> List[Dict[str, Any]]:
     low = []
     for c in rng.sample(C, len(C) // (6 if q else 3)):
         for dt in ("f32", "bf16", "f16"):
-            if rng.random() < 0.5:
+            if rng.random() < 0.5 and not torch_crash_region(c, dt):
                 low.append(dict(c, dtype=dt))
     C += low
     return C
+
+
+def configs_deep(rng: random.Random, tier: str) -> List[Dict[str, Any]]:
+    """quick: one round of configs(); thorough: VERIF_ROUNDS (default 10) rounds from the same stream, de-duplicated."""
+    import os
+
+    if tier == "quick":
+        return configs(rng, tier)
+    seen, out = set(), []
+    for _ in range(int(os.environ.get("VERIF_ROUNDS", "10"))):
+        for c in configs(rng, tier):
+            k = json.dumps(c, sort_keys=True, default=str)
+            if k not in seen:
+                seen.add(k)
+                out.append(c)
+    return out
+
+
+def torch_crash_region(c: Dict[str, Any], dt: str) -> bool:
+    """PyTorch itself (plain F.conv1d, no unit_scaling involved) segfaults on CPU for float16
+    with kernel_size 1, dilation > 1, stride > 1 and padding > 0 at some thread counts
+    (reproducer in DESIGN.md section 6).  Not an input on which any verdict can be observed."""
+    return dt == "f16" and c.get("op") == "conv1d" and c["k"] == 1 and c["dilation"] > 1
 
 
 def _broadcastable(a: List[int], b: List[int]) -> bool:
